@@ -61,11 +61,16 @@ pub fn run_c14(cx: &mut Cx) {
     let (n, hidden) = combo(cx.ch.forced("combo", 57, cx.run_index.wrapping_mul(23)));
     let trusted = cx.ch.chance("trusted_party", 1, 3);
     let msgs = gen_msgs(cx, n, false);
-    let revealed_idx: Vec<usize> = (0..n).filter(|i| !hidden.contains(i)).collect();
+    // both index lists are sets: they are also given descending / rotated / shuffled (the
+    // revealed attributes travel in the order of their index list)
+    let (order_h, hidden) = reorder(&mut cx.ch, "hidden_list_order", &hidden);
+    let (order_r, revealed_idx) = reorder(&mut cx.ch, "revealed_list_order", &(0..n).filter(|i| !hidden.contains(i)).collect::<Vec<_>>());
+    if order_h != "as-given" { cx.count("probe.hidden_positions_listed_in_non_ascending_order"); }
+    if order_r != "as-given" { cx.count("probe.revealed_positions_listed_in_non_ascending_order"); }
     let revealed: Vec<Integer> = revealed_idx.iter().map(|&i| msgs[i].clone()).collect();
-    cx.log(format!("session: key#{} n={n} hidden={hidden:?} trusted={trusted}", key.idx));
-    cx.cell(format!("shape|n{n}|U{}|first_hidden{}|trusted{}", hidden.len(), hidden[0], trusted as u8));
-    if hidden[0] != 0 { cx.count("probe.hidden_set_without_position_0"); }
+    cx.log(format!("session: key#{} n={n} hidden={hidden:?} ({order_h}) revealed={revealed_idx:?} ({order_r}) trusted={trusted}", key.idx));
+    cx.cell(format!("shape|n{n}|U{}|first_hidden{}|trusted{}|{order_h}|{order_r}", hidden.len(), hidden.iter().min().unwrap(), trusted as u8));
+    if !hidden.contains(&0) { cx.count("probe.hidden_set_without_position_0"); }
     if hidden.len() == n { cx.count("probe.all_hidden"); }
     let (k1, m1, h1) = (key.clone(), msgs.clone(), hidden.clone());
     let opts = StepOpts { eintr: if cx.ch.chance("eintr", 1, 6) { 1 } else { 0 }, short_reads: if cx.ch.chance("short", 1, 6) { 1 } else { 0 }, ..Default::default() };
@@ -170,9 +175,10 @@ fn mismatches(cx: &mut Cx, issuer: NodeId, holder: NodeId, key: Arc<KeyMat>, req
     // other hidden-position sets
     if n > 1 {
         let mut variants: Vec<(String, Vec<usize>)> = Vec::new();
+        let mut own = req.hidden.clone(); own.sort();
         if let Some(extra) = (0..n).find(|i| !req.hidden.contains(i)) { let mut h = req.hidden.clone(); h.push(extra); h.sort(); variants.push(("hidden_set:+1".into(), h)); }
         if req.hidden.len() > 1 { let mut h = req.hidden.clone(); h.pop(); variants.push(("hidden_set:-1".into(), h)); }
-        { let h: Vec<usize> = req.hidden.iter().map(|i| (i + 1) % n).collect(); let mut hs = h.clone(); hs.sort(); if hs != req.hidden { variants.push(("hidden_set:shifted".into(), hs)); } }
+        { let h: Vec<usize> = req.hidden.iter().map(|i| (i + 1) % n).collect(); let mut hs = h.clone(); hs.sort(); if hs != own { variants.push(("hidden_set:shifted".into(), hs)); } }
         for (name, h) in variants { let mut r = req.clone(); r.hidden = h; deliver_request(cx, issuer, key.clone(), r, name, false); }
     }
     // other bases / other key
@@ -189,6 +195,37 @@ fn mismatches(cx: &mut Cx, issuer: NodeId, holder: NodeId, key: Arc<KeyMat>, req
         // and a foreign trusted commitment value the proof says nothing about
         let mut r = req.clone(); r.ct_value = r.ct_value.map(|x| x + 1u32);
         deliver_request(cx, issuer, key.clone(), r, "trusted_commitment_value:+1".into(), false);
+    }
+    // Mallory: SIMULATED transcripts of the multi-secret proof of knowledge (responses chosen
+    // first, the first message t solved for afterwards) for a commitment C' whose opening nobody
+    // knows.  A simulation verifies exactly when the challenge does not bind what was solved for
+    // last (weak Fiat-Shamir); every other part of the frame is the honest one.  Hypotheses: the
+    // challenge ignores t; the challenge ignores t and C.
+    if !trusted {
+        let nmod = &key.pk.N;
+        let seed = cx.run_seed;
+        let draw = |tag: u64, bits: u32| { let mut x = Integer::from_digits(&zksim_core::prng::bytes_for(seed, b"simulated", tag, (bits as usize + 7) / 8), rug::integer::Order::MsfBe); x.keep_bits_mut(bits); x };
+        let x = draw(0, LN - 2);
+        let c_forged = Integer::from(&x * &x) % nmod;
+        for (hyp, with_c) in [("challenge_without_t", true), ("challenge_without_t_and_C", false)] {
+            let s1: Vec<Integer> = (0..req.hidden.len()).map(|k| draw(10 + k as u64, LM + 256)).collect();
+            let s2 = draw(5, LN + 256);
+            let mut hashed = String::new();
+            let mut lhs = Integer::from(1);
+            for (k, &i) in req.hidden.iter().enumerate() { hashed += &req.bases[i].to_string(); lhs = lhs * pow(&req.bases[i], &s1[k], nmod) % nmod; }
+            lhs = lhs * pow(&key.pk.b, &s2, nmod) % nmod;
+            hashed += &key.pk.b.to_string();
+            if with_c { hashed += &c_forged.to_string(); }
+            let c = sha256_int(&hashed);
+            let Ok(cinv) = pow(&c_forged, &c, nmod).invert(nmod) else { continue };
+            let t = lhs * cinv % nmod;
+            let mut v = parse(&req.zk_json);
+            v["CL03"]["proof_commited_msgs"] = serde_json::json!({ "t": int_json(&t), "s1": s1.iter().map(int_json).collect::<Vec<_>>(), "s2": int_json(&s2) });
+            let mut r = req.clone();
+            r.zk_json = v.to_string();
+            r.c_value = c_forged.clone();
+            deliver_request(cx, issuer, key.clone(), r, format!("forged_simulated_transcript:{hyp}"), false);
+        }
     }
     // the per-attribute sub-proof arrays shortened (last entry removed / emptied)
     {
